@@ -116,25 +116,17 @@ class Canvas:
 
 
 def render(fields, shape):
-    """Coherent rendering of (data, offset) pairs into an array of `shape`."""
-    out = np.zeros(shape, dtype=complex)
-    ro, co = shape[0] // 2, shape[1] // 2
+    """Coherent rendering of (data, offset) pairs into an array of `shape` whose origin sample is at
+    index floor(n/2) on each axis."""
+    shape = (int(shape[0]), int(shape[1]))
+    bb = (-(shape[0] // 2), -(shape[0] // 2) + shape[0] - 1, -(shape[1] // 2), -(shape[1] // 2) + shape[1] - 1)
+    fl = []
     for data, offset in fields:
         data = np.asarray(data)
         if data.ndim < 2:
             data = data.reshape(1, 1)
-        nr, nc = data.shape
-        r0 = -(nr // 2) + int(offset[0]) + ro
-        c0 = -(nc // 2) + int(offset[1]) + co
-        for i in range(nr):
-            ii = r0 + i
-            if ii < 0 or ii >= shape[0]:
-                continue
-            j0 = max(0, -c0)
-            j1 = min(nc, shape[1] - c0)
-            if j1 > j0:
-                out[ii, c0 + j0:c0 + j1] += data[i, j0:j1]
-    return out
+        fl.append((data, offset))
+    return dense(fl, bb)
 
 
 def coordset(shape, offset):
@@ -258,3 +250,28 @@ def fraunhofer_tol(fields, ar, ac, umax, vmax, c=64.0):
         npx = max(npx, data.size)
     phase = 2 * np.pi * (abs(float(ar)) * xmax * (abs(umax) + 1) + abs(float(ac)) * ymax * (abs(vmax) + 1))
     return c * EPS * (4.0 + phase + np.sqrt(npx)) * s * float(np.sqrt(abs(float(ar) * float(ac)))) + 1e-300
+
+
+def bbox_of(items):
+    """Bounding box (rmin, rmax, cmin, cmax) in plane coordinates of (shape, offset) pairs."""
+    lo_r = min(-(sh[0] // 2) + int(o[0]) for sh, o in items)
+    hi_r = max(-(sh[0] // 2) + int(o[0]) + sh[0] - 1 for sh, o in items)
+    lo_c = min(-(sh[1] // 2) + int(o[1]) for sh, o in items)
+    hi_c = max(-(sh[1] // 2) + int(o[1]) + sh[1] - 1 for sh, o in items)
+    return lo_r, hi_r, lo_c, hi_c
+
+
+def dense(fields, bbox):
+    """Coherent rendering of (data, offset) pairs into a dense array covering bbox (vectorised)."""
+    lo_r, hi_r, lo_c, hi_c = bbox
+    out = np.zeros((hi_r - lo_r + 1, hi_c - lo_c + 1), dtype=complex)
+    for data, offset in fields:
+        data = np.asarray(data)
+        r0 = -(data.shape[0] // 2) + int(offset[0]) - lo_r
+        c0 = -(data.shape[1] // 2) + int(offset[1]) - lo_c
+        i0, j0 = max(0, -r0), max(0, -c0)
+        i1 = min(data.shape[0], out.shape[0] - r0)
+        j1 = min(data.shape[1], out.shape[1] - c0)
+        if i1 > i0 and j1 > j0:
+            out[r0 + i0:r0 + i1, c0 + j0:c0 + j1] += data[i0:i1, j0:j1]
+    return out
